@@ -393,6 +393,47 @@ pub fn e1_check(id: &str) -> Option<Check> {
                 fixup: nofix,
             }
         }
+        // exploratory profile (not registered in MANIFEST): operations from thread-local
+        // destructors (temporary nodes) on the fallback path under thread churn, two containers
+        "X11" => {
+            p.name = "dtor-storm";
+            p.threads = (4, 6);
+            p.ops = (1, 3);
+            p.conts = (2, 2);
+            p.late = 30;
+            p.dtor = 100;
+            p.nofast = 100;
+            p.bequeath = 0;
+            p.outlive = 0;
+            p.reuse = 0;
+            p.w_load = 4;
+            p.w_store = 8;
+            p.w_swap = 2;
+            p.w_cas = 0;
+            p.w_rcu = 0;
+            p.w_hold = 0;
+            p.w_sendh = 0;
+            p.w_sendg = 0;
+            p.w_stall = 6;
+            p.modes = (1, 0, 0);
+            Check {
+                id: "X11",
+                profile: p,
+                deciding: &["O-lin", "O-nodes"],
+                rule: "exploratory: loads from thread-local destructors on the fallback-only strategy, writers to two containers, thread churn; SC mode",
+                nontrivial: |_, o| o.hs.dtor_ops > 0 && o.stats.node_reclaimed > 0,
+                quick: 300_000,
+                thorough: 5_000_000,
+                fixup: |c| {
+                    // destructor operations: loads of both containers
+                    for (i, t) in c.prog.threads.iter_mut().enumerate() {
+                        if i > 0 {
+                            t.dtor_ops = vec![crate::prog::Op::Load(0), crate::prog::Op::Load(1), crate::prog::Op::Load((i % 2) as u8)];
+                        }
+                    }
+                },
+            }
+        }
         _ => return None,
     };
     Some(c)
